@@ -12,13 +12,14 @@ func (w *World) opaqueMethod(ov *OpaqueVal, name string) opaqueMethodFn {
 	return w.opaqueMethodImpl(ov, name)
 }
 
-func (w *World) globalOverride(e *Exec, g *ssa.Global) (Value, bool) { return nil, false }
+func (w *World) globalOverride(e *Exec, g *ssa.Global) (Value, bool) { return w.cryptoGlobal(e, g) }
 
 func (w *World) registerMoreIntrinsics() {
 	I := w.intrinsics
 	w.registerHTTPIntrinsics()
 	w.registerTimeIntrinsics()
 	w.registerHTTPEffects()
+	w.registerCryptoIntrinsics()
 	terms := func(e *Exec, v Value) []*Term {
 		var ts []*Term
 		for _, x := range e.sliceElems(v.(*SliceVal)) {
